@@ -135,7 +135,7 @@ ObsReset(smc, sms, lnk) ==
     /\ timer' = [e \in EP |-> NoTimer]
     /\ timeouts' = [e \in EP |-> 0]
     /\ handled' = [e \in EP |-> 0]
-    /\ UNCHANGED obsErr
+    /\ obsErr' = "none"
 
 Fail(msg) ==
     /\ obsErr' = msg
